@@ -54,10 +54,12 @@ def options(stg, cmd):
     return _opt_cache[cmd]
 
 
-STATES = ["stack", "empty", "uninit", "conflict", "detached", "moved", "hidden-only"]
+STATES = ["stack", "empty", "uninit", "uninit-other", "conflict", "detached", "moved", "hidden-only"]
 
 
 def make_state(r, stg, state):
+    if state == "boundary":
+        return make_boundary_state(r, stg)
     r.init_repo()
     r.write("f0.txt", "base\n")
     r.git(["add", "-A"])
@@ -70,6 +72,14 @@ def make_state(r, stg, state):
     r.git(["tag", "orphan-tag", oc])
     r.git(["tag", "-a", "-m", "annotated tag", "annotated", "HEAD"])
     if state == "uninit":
+        return
+    if state == "uninit-other":
+        # the current branch is a plain git branch; ANOTHER branch has a stack
+        r.git(["checkout", "-q", "-b", "other"])
+        r.stg(stg, ["init"])
+        for n in ("p0", "p1"):
+            r.stg(stg, ["new", "-m", "patch %s" % n, n])
+        r.git(["checkout", "-q", "main"])
         return
     r.stg(stg, ["init"])
     if state == "empty":
@@ -202,4 +212,63 @@ def run_rev_probes(stg, states=("stack", "moved", "empty"), revs=None, tag="fzr"
         finally:
             if r is not None:
                 r.__exit__(None, None, None)
+    return total, failures
+
+
+BOUNDARY_PROBES = [
+    ["sink", "--to", "p3", "p0"], ["sink", "--above", "p3", "p0"], ["sink", "--to", "p3", "p0", "p1"],
+    ["sink", "--nopush", "--to", "p3", "p0"], ["sink", "--to", "p0", "p3"], ["sink", "--above", "p0", "p3"],
+    ["sink", "--to", "p3", "p4"], ["sink", "--to", "p3", "h0"], ["sink", "p3"], ["sink", "p0"], ["sink", "--to", "p3", "p3"],
+    ["float", "p0"], ["float", "p3"], ["float", "p0", "p3"], ["float", "--noapply", "p0"], ["float", "h0"],
+    ["push", "-n", "1"], ["push", "-n", "2"], ["push", "-n", "-1"], ["push", "-n", "-2"], ["push", "--reverse", "-a"],
+    ["pop", "-n", "4"], ["pop", "-n", "5"], ["pop", "-n", "-4"], ["pop", "-n", "-5"], ["pop", "p0"], ["pop", "p3"],
+    ["pop", "--spill", "p3"], ["pop", "--spill", "p0"], ["goto", "p0"], ["goto", "p3"], ["goto", "p4"], ["goto", "h0"],
+    ["delete", "p0"], ["delete", "p3"], ["delete", "--top"], ["delete", "--spill", "p3"], ["delete", "--spill", "p0"],
+    ["delete", "p0..p3"], ["delete", "-a"], ["hide", "p0"], ["hide", "p3"], ["hide", "p0..p4"], ["unhide", "h0"],
+    ["commit", "-n", "4"], ["commit", "-n", "5"], ["commit", "p3"], ["commit", "p0..p3"], ["commit", "-a"],
+    ["uncommit", "-n", "1"], ["uncommit", "-n", "3"], ["rename", "p3", "p0"], ["rename", "p0", "P0"], ["rename", "h0", "p9"],
+    ["squash", "-m", "s", "p0", "p3"], ["squash", "-m", "s", "p3", "p4"], ["clean"], ["spill"], ["undo"], ["undo", "-n", "50"],
+    ["redo"], ["reset", "--hard"], ["new", "-m", "x", "p0"], ["new", "-m", "x", "P3"], ["refresh", "-p", "p0"], ["refresh", "-p", "h0"],
+    ["pick", "p4"], ["pick", "--fold", "p0"], ["pick", "--revert", "p3"], ["sync", "-B", "other", "p0"], ["repair"],
+]
+
+
+def make_boundary_state(r, stg):
+    """applied p0..p3, unapplied p4, hidden h0, a second branch `other`"""
+    r.init_repo()
+    r.stg(stg, ["init"])
+    for i, n in enumerate(["p0", "p1", "p2", "p3", "p4", "h0"]):
+        r.stg(stg, ["new", "-m", "patch %s" % n, n])
+        r.write("g%d.txt" % i, n + "\n")
+        r.git(["add", "-A"])
+        r.stg(stg, ["refresh"])
+    r.stg(stg, ["pop", "-n", "2"])
+    r.stg(stg, ["hide", "h0"])
+    r.stg(stg, ["branch", "--clone", "other"])
+    r.git(["checkout", "-q", "main"])
+
+
+def run_boundary_probes(stg, tag="fzb"):
+    failures = []
+    total = 0
+    r = None
+    try:
+        for argv in BOUNDARY_PROBES:
+            if r is None:
+                r = repo.Scratch(tag)
+                r.__enter__()
+                make_boundary_state(r, stg)
+            p = r.stg(stg, argv, timeout=20, env={"STGIT_VERIF_DIR": ""})
+            total += 1
+            bad = classify(p)
+            if bad:
+                failures.append({"state": "boundary", "history": [], "argv": argv, "kind": bad, "exit": p.returncode,
+                                 "site": panic_site(p.stderr) if bad == "panic" else None, "stderr": p.stderr[-400:]})
+            # every probe starts from the same shape: rebuilt whenever something may have changed
+            if p.returncode in (0, 3) or bad:
+                r.__exit__(None, None, None)
+                r = None
+    finally:
+        if r is not None:
+            r.__exit__(None, None, None)
     return total, failures
